@@ -79,6 +79,9 @@ def mutants(only=None):
             meta = json.load(open(os.path.join(os.path.dirname(pf), "meta.json")))
             props = meta.get("caught_by") or [meta["property"]]
             name = os.path.basename(os.path.dirname(pf))
+            if meta.get("expected_missed"):
+                print("mutant %s: recorded gap - no check catches it (%s)" % (name, meta.get("history", "")[:120]))
+                continue
         else:
             name = os.path.basename(pf)[:-6]
             props = [name.split("-")[0].upper()]
